@@ -24,6 +24,7 @@ type Engine struct {
 	CS      *Contracts
 	chanMsgs map[string]*ChanSpec
 	pendingAtomic bool
+	ScopeAll bool     // the property has a package scope: every clause of every verified function counts
 	Quick    bool     // quick tier: clauses tagged [slow] are assumed, not re-proved
 	Deferred []string // obligations left to the thorough tier
 	lockRefs map[string]*lockRef
@@ -244,7 +245,7 @@ func (E *Engine) scanInits() {
 				if c, ok := st.Val.(*ssa.Call); ok {
 					if sc := c.Call.StaticCallee(); sc != nil {
 						n := sc.String()
-						if n == "errors.New" || n == "fmt.Errorf" {
+						if n == "errors.New" || n == "fmt.Errorf" || n == "go.uber.org/zap.NewNop" {
 							E.nonNilGlobals[g.Pkg.Pkg.Path()+"."+g.Name()] = true
 						}
 					}
